@@ -384,7 +384,7 @@ func init() {
 	fw.Register(&fw.Prop{
 		ID:    "C02",
 		Level: "exploration",
-		Rule:  "streams = all concatenations of 1..3 values from a 40-value representative set (every type; CRLF/prefix-looking bulk bodies; empty/null bulks; empty, nested, mixed arrays; multi-digit lengths and counts); delivery scripts = whole, EVERY 2-way split offset, every 3-way split for streams <=48 bytes (thorough <=96, plus every 4-way split for streams <=28 bytes and 20736 four-value sequences), strides 1/2/3/5/7, split after every CR. Long streams: 127..1100 copies of one value (empty and nested arrays, nil, empty bulk, integer, command) followed by values of every kind through one parser, whole and strides 1 and 7. Size ladder: a bulk string of every length 2^k-1, 2^k, 2^k+1 (k=3..16, thorough 17) and 10^k-1, 10^k, 10^k+1 (k=1..4, thorough 5), with CRLF/header-looking content, plain content, and inside a command array, followed by two more values: whole, every 2-way split within 10 (thorough 40) bytes of each structural position (value start, end of the length header, end of the payload, end of each value) and around every 2^k stream offset >= 4096 (thorough: every offset for lengths <= 5000), strides 1/2/3/4096/32768. A case (stream, script) is non-trivial when at least one split falls strictly inside a value.",
+		Rule:  "streams = all concatenations of 1..3 values from a 40-value representative set (every type; CRLF/prefix-looking bulk bodies; empty/null bulks; empty, nested, mixed arrays; multi-digit lengths and counts); delivery scripts = whole, EVERY 2-way split offset, every 3-way split for streams <=48 bytes (thorough <=96, plus every 4-way split for streams <=28 bytes and 20736 four-value sequences), strides 1/2/3/5/7, split after every CR. Long streams: 127..1100 copies of one value (empty and nested arrays, nil, empty bulk, integer, command) followed by values of every kind through one parser, whole and strides 1 and 7. Size ladder: a bulk string of every length 2^k-1, 2^k, 2^k+1 (k=3..16, thorough 17) and 10^k-1, 10^k, 10^k+1 (k=1..4, thorough 5), with CRLF/header-looking content, plain content, and inside a command array, followed by two more values: whole, every 2-way split within 10 (thorough 40) bytes of each structural position (value start, end of the length header, end of the payload, end of each value) and around every 2^k stream offset >= 4096 (thorough: every offset for lengths <= 5000), strides 1/2/3/4096/32768. A case (stream, script) is non-trivial when at least one split falls strictly inside a value. Plus every sequence of 1..2 values, whole, byte by byte and under every 2-way split, through a reader that reports io.EOF together with the last bytes.",
 		Assumptions: []string{
 			"Read never returns (0,nil); (n>0, io.EOF) on the last bytes is exercised for all sequences of 1..2 values (crypto/tls up to TLS 1.2 does that)",
 			"random k-way partitions of the quantifier are not claimed",
